@@ -736,6 +736,24 @@ def ragged_rows_oracle(ck, tmp):
                 ck.fail_input("C08:source-loading:ragged-rows-misaligned:" + fmt,
                               "a %s source with the rows %s in a by_position block expands to %s: not one run per row made of that row's values"
                               % (fmt, rows, runs), {"kind": "ragged-rows", "format": fmt, "rows": rows, "text": text})
+    # duplicate keys inside one source: two CSV columns of one name (exactly, or after the header's blanks are stripped), two keys of a
+    # YAML mapping that are one string (1 and "1").  A duplicate key within a block is rejected.
+    for name, fmt, text in (("csv-header-twice", "csv", "a,a\n1,2\n3,4\n"), ("csv-header-twice-after-stripping", "csv", "a, a\n1,2\n3,4\n"),
+                            ("yaml-mapping-keys-1-and-'1'", "yaml", "1: [10, 20]\n'1': [30, 40]\n"),
+                            ("yaml-rows-keys-1-and-'1'", "yaml", "- {1: 10, '1': 30}\n- {1: 20, '1': 40}\n")):
+        with open(os.path.join(d, "dup." + fmt), "w", newline="") as f:
+            f.write(text)
+        n += 1
+        try:
+            runs, _ = expand_run_space(RunSpaceV1Config(blocks=[RunBlock(mode="by_position", context={}, source=RunSource(format=fmt, path="dup." + fmt))]), cwd=d)
+        except Exception as ex:  # noqa
+            if type(ex).__name__ not in ("PipelineConfigurationError", "ConfigurationError"):
+                ck.fail_input("C08:source-loading:duplicate-key:raw-error:" + name, "%r: %s: %s" % (text, type(ex).__name__, str(ex)[:120]),
+                              {"kind": "duplicate-source-key", "format": fmt, "text": text})
+            continue
+        ck.fail_input("C08:source-loading:duplicate-key-accepted:" + name,
+                      "a %s source with the text %r names one key twice and is expanded to %s instead of being rejected" % (fmt, text, runs),
+                      {"kind": "duplicate-source-key", "format": fmt, "text": text})
     return n
 
 
